@@ -34,7 +34,7 @@ CFG = {'long_max_vertices': 150,   # the exact oracle is quadratic in the vertex
                    "GeoProofs/Lemmas/RELM3Areal.lean", "GeoProofs/Lemmas/RELM3Star.lean", "GeoProofs/Lemmas/RELM3ExtNodes.lean",
                    "GeoProofs/Lemmas/RELM3Ext.lean", "GeoProofs/Lemmas/RELM3ExtSpec.lean", "GeoProofs/Lemmas/RELM3Full.lean",
                    "GeoProofs/Lemmas/RELM3ArealExt.lean", "GeoProofs/Lemmas/RELM3ArealFull.lean", "GeoProofs/Lemmas/RELM3Poly.lean",
-                   "GeoProofs/Lemmas/RELM3MPoly.lean"],
+                   "GeoProofs/Lemmas/RELM3MPoly.lean", "GeoProofs/Lemmas/RELM3PointMP.lean", "GeoProofs/Lemmas/RELM3LineLine.lean"],
     "rule": "ordered pairs (A, B) over all 10 geometry types (Geometry enum on both sides) drawn from one shared 3..6 grid: polyomino polygons with "
             "holes (incl. holes tangent to the shell), star polygons, rectangles with holes, corner-touching multipolygons, self-avoiding lattice "
             "paths, multi line strings sharing end points (mod-2 rule), half-grid points, same-dimension collections; each case also relates the "
@@ -218,13 +218,21 @@ MANIFEST = {
             "relateSpec B (Point p), whole matrix, total function, for B a Line, LineString, MultiLineString, Polygon (holes touching the shell included), "
             "MultiPolygon (touching members included), Rect or Triangle of the domain, no further hypothesis "
             "(relateImpl_point_eq_spec_extendedType_partial). "
-            "Open there: B a MultiPoint against a Point (Exterior row), GeometryCollections (rows proved for one-kind collections; DimsSpec of a collection "
-            "and 'an envelope implies an edge' missing; collections mixing kinds only occur with empty members). The disjoint-envelope shortcut on the whole validity domain, polygons with holes "
+            "(14) Point x MultiPoint, whole matrix (relateImpl_point_multiPoint_graph: no edge; the nodes of B away from p contribute (0,E,I)); hence "
+            "relateImpl (Point p) B = relateSpec (Point p) B and relateImpl B (Point p) = relateSpec B (Point p) for EVERY B of the validity domain that is "
+            "not a GeometryCollection, the only hypothesis being the property's own domain (relateImpl_point_eq_spec_noCollection_partial). "
+            "(15) Specification, linear x linear (any two lists of curves): every cell with a boundary in it (IB, BI, BB, BE, EB) is 0 exactly when some "
+            "point has that pair of locations, F otherwise (relateSpec_linear_boundary_cells); Line x Line: BB, IB, BI, BE, EB in closed form "
+            "(relateSpec_line_line_boundary_cells) — with II and EE seven of the nine cells; IE / EI (a segment not covered by the other has an elementary "
+            "sub-segment off it) open. "
+            "Open there: GeometryCollections (rows proved for one-kind collections, whole matrix on the graph path for linear ones; DimsSpec of a "
+            "collection, the Exterior row of areal / point collections and 'an envelope implies an edge' missing; collections mixing kinds only occur "
+            "with empty members). The disjoint-envelope shortcut on the whole validity domain, polygons with holes "
             "included: 'hole coordinates in the reported rectangle' and 'rings closed' follow from validity (C02X dom_facts), so relateImpl = relateSpec "
             "for domain operands with non-intersecting rectangles wherever HasDimensions agrees with the specification "
             "(relateImpl_disjoint_eq_spec_dom_partial; remaining hypothesis DimsSpec: interior face sample of a valid polygon, collections). "
-            "Not proved: relateImpl = relateSpec when neither operand is a point: Line x Line, LineString x LineString and beyond (needs the full specification matrix of two "
-            "segments beyond the cell II and an order-independent evaluation of the node map / stars for symbolic coordinates).",
+            "Not proved: relateImpl = relateSpec when neither operand is a point: Line x Line, LineString x LineString and beyond (needs the cells IE / EI "
+            "of two segments and the mutual-intersection phase of the algorithm — proper crossings, edge splitting — against the arrangement vertices).",
     "note": "Trusted: Lean kernel + audited axioms; the harness/generators (sampling); spec adequacy S1/S2. Defects found by this check and repaired in /repo: "
             "Triangle vertical edge (29720670), MultiPolygon shared vertex (5f41a6da), MultiLineString boundary_dimensions mod-2 (17c66966). The algorithm of "
             "relate is now modelled (relateImpl) and compared with the code on valid and invalid operands; K10 as seen from relate (subnormal coordinate: two "
